@@ -101,22 +101,27 @@ PROPS = {
         quick=dict(runs=1500),
         thorough=dict(runs=60000),
         rule=("each run = one generated store (1-5 metrics of every kind/type, 0-2 keys, 0-4 label sets), one exporter family chosen by seed "
-              "(prometheus, push[collectd+graphite+statsd], varz, graphite-http, json), exporter options (prog label on/off, timestamps on/off), and — "
+              "(prometheus, push[collectd+graphite+statsd], varz, graphite-http, json, http-server), exporter options (prog label on/off, timestamps on/off), and — "
               "enumerated completely for that store — every fault position of the family: prometheus: invalid metric name per metric, key named "
               "prog per keyed metric, non-UTF-8 value at every (metric, label set); push: per target every write k=1..W failing (plain and short "
               "write), dial failure; HTTP handlers: request cancelled before the call and during write k, ResponseWriter failing from write k; plus "
-              "the fault-free attempt. Every attempt runs on a fresh copy of the store under a seeded schedule of exporter, emitter goroutines and "
+              "the fault-free attempt; after every attempt a concurrent-updater variant (one attempt in two: a task updates an existing datum of every type and creates a label set during the attempt), "
+              "a write-lock probe of every metric and a registration/lookup/removal on the store. The http-server family (one run in six) instead starts mtail's real HTTP "
+              "server (mtail.New, net/http with mtail's timeouts) on the in-memory transport with a 0.5-16 KiB send buffer, requests /varz, /graphite, /json or /metrics "
+              "for a store of 40-239 label sets from a client that reads everything, reads now and then, or stops reading without closing; a simulated minute passes; then "
+              "the same probes, and shutdown must complete with no task left. Every attempt runs on a fresh copy of the store under a seeded schedule of exporter, emitter goroutines and "
               "probe. evaluations = attempts; non-trivial attempt = one whose fault fired; distinct = those attempts, over distinct (family, store, "
               "options, schedule) runs. exhaustive refers to fault positions per generated store, the store space is sampled."),
         assumptions=[
             "the push connection is a stub net.Conn that fails at the chosen write (deadlines are accepted and ignored)",
-            "HTTP handlers are called directly with a fault-injecting ResponseWriter and a cancellable request context (no real HTTP server)",
+            "in the handler families HTTP handlers are called directly with a fault-injecting ResponseWriter and a cancellable request context; the http-server family runs the real server, where the only fault is the client that stops reading (no resets, no malformed requests)",
+            "while a stalled client holds the connection nothing is asserted; the write deadline mtail configures is not mirrored: any finite one below a simulated minute passes",
             "'subsequent line processing' is represented by what the VM does on a line: GetDatum (write lock) on every metric, then an update",
         ],
         expect_probes=[],
         real=["exporter.Exporter (Collect via Write and a real prometheus.Registry Gather, PushMetrics, writeSocketMetrics, formatters, HandleVarz, HandleGraphite, HandleJSON, New/Stop)",
-              "metrics.Metric locks (simulated mutex with Go's writer preference)", "EmitLabelSets goroutines", "prometheus client_golang"],
-        stub=["push connection (net.DialTimeout redirected)", "http.ResponseWriter"],
+              "metrics.Metric locks (simulated mutex with Go's writer preference)", "EmitLabelSets goroutines", "prometheus client_golang", "mtail.Server with its net/http server (ServeMux, promhttp, timeouts) in the http-server family"],
+        stub=["push connection (net.DialTimeout redirected)", "http.ResponseWriter (handler families)", "TCP transport of the HTTP server (in-memory listener/conn with a bounded send buffer and deadlines on the fake clock)"],
     ),
     "C20": dict(
         level="exploration",
